@@ -1,6 +1,9 @@
 ---------------------------- MODULE MC_SplStatic ----------------------------
 EXTENDS SplStatic, Json
 TN == {"vec", "mat"}
+TN0 == {}
+PN1 == {"p"}
+VN1 == {"a"}
 PN == {"p", "q"}
 VN == {"a", "i"}
 NoFaults == {}
